@@ -295,7 +295,9 @@ void profile_storm(RunCtx& ctx)
             c.alloc_fail_at = 1 + (int64_t)rng.below(1u << rng.range(0, 14));
         if (envfault && c.backend == B_PRETTY && rng.chance(0.5))
             c.sink_fail_after = rng.below(rng.chance(0.5) ? 40 : 3000);
-        c.ceiling = envfault && what.rfind("entity-bomb", 0) != 0 ? 0 : default_ceiling(c.bytes.size());
+        // under environment faults the ceiling is generous rather than absent: an injected fault never makes a call
+        // *more* expensive, and a loop that only the watchdog stops (10-60 s per run) would starve the whole batch
+        c.ceiling = default_ceiling(c.bytes.size()) * (envfault && what.rfind("entity-bomb", 0) != 0 ? 8 : 1);
         if (!ctx.keep(i))
             continue;
         ctx.hint = what;
